@@ -26,7 +26,7 @@ pub fn gen_programs(rng: &mut Rng, nprog: usize) -> Vec<Program> {
     for (i, n) in per.iter().enumerate() {
         let pmt_pid = pids[k]; k += 1;
         let streams: Vec<(u8, u16)> = (0..*n).map(|_| { let p = pids[k]; k += 1; (*rng.pick(&PES_TYPES), p) }).collect();
-        out.push(Program { number: (i as u16 + 1) * rng.range(1, 9) as u16, pmt_pid, pcr_pid: streams[0].1, streams });
+        out.push(Program { number: (i as u16 + 1) + 16 * (rng.range(1, 9) as u16 - 1), pmt_pid, pcr_pid: streams[0].1, streams });   // distinct program numbers
     }
     out
 }
